@@ -563,11 +563,68 @@ def check_layout(idx: ProgramIndex, rep: Report):
                     ok = "interleaved" in kw and src(kw["interleaved"]) == "self._interleaved"
                     rep.add("C11-3", inst, "%s:%d" % (fi.module.relpath, c.lineno), ok, "layout flag propagated" if ok else "a MultitaskMultivariateNormal is rebuilt from self's covariance without interleaved=self._interleaved", {})
     rep.floor("C11-3", "re-construction sites", n_sites, 5)
-    # from_batch_mvn: interleaved default with BlockInterleavedLinearOperator
+    # from_batch_mvn: the covariance is BlockInterleaved over task_dim (the block dimension is *removed* from the batch dimensions,
+    # the others keep their order) with the default interleaved flag; the mean must undergo the same move: axis order
+    # [batch dims without task_dim ..., data, task].  Decided in the axis-order domain for every rank n <= 6 and every task_dim.
+    from ..domains.axes import AxesUnknown, apply_chain
+    from ..symbolic import inline as _inline, walk_paths as _walk_paths
     fb = idx.method(cls, "from_batch_mvn", own=True)
-    t = src(fb.node)
-    ok = "BlockInterleavedLinearOperator" in t and "interleaved=False" not in t and "block_dim=task_dim" in t and "task_dim)" in t
-    rep.add("C11-3", MOD + ":MultitaskMultivariateNormal.from_batch_mvn", fb.where, ok, "interleaved covariance (BlockInterleaved over task_dim) with the task dimension moved last in the mean" if ok else "from_batch_mvn no longer builds BlockInterleaved over task_dim with the default interleaved flag", {})
+    mvn_p = fb.params[1]
+    td_p = fb.params[2] if len(fb.params) > 2 else "task_dim"
+    bprobs = []
+    nctor = 0
+    for path, seq in _walk_paths(fb):
+        if path.outcome != RETURN:
+            continue
+        for st, env in seq:
+            if not isinstance(st, ast.stmt):
+                continue
+            for c in (x for x in ast.walk(st) if isinstance(x, ast.Call)):
+                if src(c.func) not in ("cls", "MultitaskMultivariateNormal"):
+                    continue
+                nctor += 1
+                kw = {k.arg: _inline(k.value, env) for k in c.keywords}
+                me = kw.get("mean", _inline(c.args[0], env) if c.args else None)
+                ce = kw.get("covariance_matrix", _inline(c.args[1], env) if len(c.args) > 1 else None)
+                if "interleaved" in kw and not (isinstance(kw["interleaved"], ast.Constant) and kw["interleaved"].value is True):
+                    bprobs.append("the result is not flagged interleaved (BlockInterleaved covariance)")
+                if not (isinstance(ce, ast.Call) and (chain(ce.func) or "").split(".")[-1] == "BlockInterleavedLinearOperator"):
+                    bprobs.append("the covariance is not a BlockInterleavedLinearOperator")
+                    continue
+                bd = [k.value for k in ce.keywords if k.arg == "block_dim"]
+                if not bd:
+                    bprobs.append("no block_dim given")
+                    continue
+                # evaluate for concrete ranks: n = mean.dim() = len(batch_shape) + 1, task_dim = k (already normalised, >= 0)
+                try:
+                    for nb in range(1, 6):
+                        n_ = nb + 1
+                        for k_ in range(nb):
+                            opaque = {}
+                            for x in list(ast.walk(me)) + list(ast.walk(bd[0])):
+                                if isinstance(x, ast.Call) and isinstance(x.func, ast.Attribute) and x.func.attr in ("dim", "ndimension") and not x.args:
+                                    opaque[ast.dump(x)] = n_
+                                if isinstance(x, ast.Call) and chain(x.func) == "len" and x.args and src(x.args[0]).endswith("batch_shape"):
+                                    opaque[ast.dump(x)] = nb
+                            envv = dict(opaque)
+                            envv[td_p] = k_
+                            from ..domains.axes import ieval
+                            if ieval(bd[0], envv) != k_:
+                                bprobs.append("block_dim is `%s`, not the task dimension" % src(bd[0])[:40])
+                                raise StopIteration
+                            got = apply_chain(me, lambda e_: chain(e_) in ("%s.mean" % mvn_p, "%s.loc" % mvn_p), n_, envv)
+                            if got is None:
+                                raise AxesUnknown("the mean is not a chain of axis operations on %s.mean" % mvn_p)
+                            want = [d for d in range(nb) if d != k_] + [nb, k_]
+                            if got != want:
+                                bprobs.append("for batch rank %d and task_dim=%d the mean's axes are %s but the covariance keeps the remaining batch dimensions in order %s (+ data, task): mean and covariance of different batch elements are paired" % (nb, k_, got, want))
+                                raise StopIteration
+                except StopIteration:
+                    pass
+                except AxesUnknown as e_:
+                    rep.observe("C11-3", MOD + ":MultitaskMultivariateNormal.from_batch_mvn[axes]", fb.where, "axis order of the mean not decided (%s)" % str(e_)[:80])
+    ok = nctor >= 1 and not bprobs
+    rep.add("C11-3", MOD + ":MultitaskMultivariateNormal.from_batch_mvn", fb.where, ok, "interleaved covariance (BlockInterleaved over task_dim); the task axis of the mean is moved last and the other batch axes keep their order (all batch ranks 1..5, every task_dim)" if ok else "from_batch_mvn: " + ("; ".join(sorted(set(bprobs))) or "no construction found"), {})
     # to_data_independent_dist stride table (on inlined expressions: n, t are the last two sizes of self.mean)
     from ..symbolic import inline, walk_paths
     td = idx.method(cls, "to_data_independent_dist", own=True)
